@@ -359,23 +359,9 @@ theorem finalized_keeps {kv : KV} (hr : Reach kv) {t s : Nat} (hf : (t, s) ∈ k
   obtain ⟨sn, h1, h2, o, h3⟩ := h.ledger.named _ hf
   exact ⟨sn, o, h1, h2, h3, fun o' ho' => (topo_unique h ho' h3).mpr rfl⟩
 
-/-
-  **restart_ok — full statement (not proved in full):**
-
-    theorem restart_ok {kv : KV} (h : Consistent kv) :
-        ∃ r, restart kv = some r            -- the modelled SetupNode steps all succeed, which
-                                            -- includes `validateGraph kv 10 = some (r.total, 0)`
-                                            -- and `chainsLoad`
-
-  What is proved below (`restart_ok_partial`): on every consistent state `LastSnapshot` succeeds,
-  the marker repair walk succeeds, and the repaired state is consistent again.
-  What is missing: the ROUND-record part of `Consistent` ("every finalized round below a chain's
-  head has its ROUND record, the head record exists") as an inductive invariant of
-  `StartNewRound`/`WriteSnapshot`, and from it `validateGraph kv 10 = some (_, 0)` and
-  `chainsLoad kv = true`. Those two are computed by the model at every cut of the differential
-  campaign and compared with the real `ValidateGraphEntries` / `SetupNode` (subsystem
-  `ledgercrash`), and checked on the real store by the Go-side scan `rcScan`.
--/
+/-- first half of `restart_ok` (proved in full at the end of this file, once the ROUND-record
+    invariant `RInv` is available): on every consistent state `LastSnapshot` succeeds, the marker
+    repair walk succeeds, and the repaired state is consistent again -/
 theorem restart_ok_partial {kv : KV} (h : Consistent kv) :
     lastSnapshotOk kv = true ∧ ∃ kv1, setupRepair kv = .ok kv1 ∧ Consistent kv1 := by
   obtain ⟨kv1, h1, _, h2, _⟩ := setupRepair_spec h.index
@@ -399,5 +385,507 @@ example : Consistent w6 := every_prefix_consistent witness_reach
 /-- a store that lost the body of a finalized transaction is rejected by the model's restart
     (the validator returns an error): the predicate is not vacuous -/
 example : (restart { w6 with txs := w6.txs.filter (fun t => t.id != 10) }).isNone = true := by decide
+
+
+/-! ## the ROUND records, the validator and the full restart -/
+
+/-- ROUND records: the head record of a chain names that chain and is past round 0; every round
+    below the head holds snapshots and has its ROUND record, stored under the hash of exactly
+    those snapshots, with matching chain and number -/
+structure RInv (kv : KV) : Prop where
+  head : ∀ c h, kv.rounds.lookup (.head c) = some h → h.node = c ∧ 1 ≤ h.number
+  below : ∀ c h, kv.rounds.lookup (.head c) = some h → ∀ i, i < h.number →
+    roundSnaps kv c i ≠ [] ∧
+    ∃ r, kv.rounds.lookup (.final c i ((roundSnaps kv c i).map (·.id))) = some r ∧ r.node = c ∧ r.number = i
+
+theorem mem_insertByTs {s x : Snap} : ∀ {l : List Snap}, x ∈ insertByTs s l ↔ x = s ∨ x ∈ l
+  | [] => by simp [insertByTs]
+  | a :: t => by
+    unfold insertByTs
+    split
+    · simp
+    · simp only [List.mem_cons, mem_insertByTs (l := t)]
+      constructor
+      · rintro (h | h | h)
+        · exact Or.inr (Or.inl h)
+        · exact Or.inl h
+        · exact Or.inr (Or.inr h)
+      · rintro (h | h | h)
+        · exact Or.inr (Or.inl h)
+        · exact Or.inl h
+        · exact Or.inr (Or.inr h)
+
+theorem mem_sortByTs {x : Snap} : ∀ {l : List Snap}, x ∈ sortByTs l ↔ x ∈ l
+  | [] => by simp [sortByTs]
+  | a :: t => by
+    have ih := mem_sortByTs (x := x) (l := t)
+    simp only [sortByTs, List.foldr_cons] at ih ⊢
+    rw [mem_insertByTs, ih]; simp
+
+theorem mem_roundSnaps {kv : KV} {c i : Nat} {x : Snap} (h : x ∈ roundSnaps kv c i) : x ∈ kv.snaps := by
+  unfold roundSnaps at h
+  exact (List.mem_filter.mp (mem_sortByTs.mp h)).1
+
+/-- the validator finds nothing wrong with a transaction of a stored snapshot -/
+theorem validateTx_ok {kv : KV} (h : Consistent kv) {sn : Snap} (hsn : sn ∈ kv.snaps) {t : Nat} (ht : t ∈ sn.txs) :
+    validateTx kv t = some false := by
+  have hfin := h.ledger.finalized sn hsn t ht
+  obtain ⟨dup, hdup⟩ : ∃ d, kv.fins.lookup t = some d := by
+    cases hx : kv.fins.lookup t with
+    | none => simp [hx] at hfin
+    | some d => exact ⟨d, rfl⟩
+  have hmem : (t, dup) ∈ kv.fins := by
+    have := List.lookup_eq_some_iff.mp hdup
+    obtain ⟨l1, l2, h1, _⟩ := this
+    rw [h1]; simp
+  obtain ⟨tx, htx, _⟩ := h.ledger.body _ hmem
+  obtain ⟨dsn, hds, htin, o, ho⟩ := h.ledger.named _ hmem
+  have hidx := h.index.idx _ ho
+  have htopo : kv.topo.lookup o = some dup := by
+    apply lookup_unique ho
+    intro v hv
+    exact ((topo_unique h hv ho).mp rfl)
+  unfold validateTx
+  simp only at htx hds hidx
+  simp only [htx, hdup, hidx, htopo, hds]
+  simp [htin]
+
+theorem validateTxs_ok {kv : KV} : ∀ (l : List Nat), (∀ t ∈ l, validateTx kv t = some false) →
+    validateTxs kv l = some (l.length, 0)
+  | [], _ => rfl
+  | t :: rest, h => by
+    simp only [validateTxs, h t (by simp), validateTxs_ok rest (fun x hx => h x (by simp [hx]))]
+    simp
+
+theorem validateRound_ok {kv : KV} (h : Consistent kv) (hr : RInv kv) {c i : Nat} {hd : Round}
+    (hh : kv.rounds.lookup (.head c) = some hd) (hi : i < hd.number) :
+    ∃ tot, validateRound kv c i = some (tot, 0) := by
+  obtain ⟨hne, r, hr1, hr2, hr3⟩ := hr.below c hd hh i hi
+  have htxs : ∀ t ∈ (roundSnaps kv c i).flatMap (·.txs), validateTx kv t = some false := by
+    intro t ht
+    obtain ⟨sn, hsn, htm⟩ := List.mem_flatMap.mp ht
+    exact validateTx_ok h (mem_roundSnaps hsn) htm
+  unfold validateRound
+  simp only [validateTxs_ok _ htxs, hr1]
+  have : (roundSnaps kv c i).isEmpty = false := by
+    cases hx : roundSnaps kv c i with
+    | nil => exact absurd hx hne
+    | cons _ _ => rfl
+  simp [this, hr2, hr3]
+
+theorem validateRounds_ok {kv : KV} (h : Consistent kv) (hr : RInv kv) {c : Nat} {hd : Round}
+    (hh : kv.rounds.lookup (.head c) = some hd) : ∀ (l : List Nat), (∀ i ∈ l, i < hd.number) →
+    ∃ tot, validateRounds kv c l = some (tot, 0)
+  | [], _ => ⟨0, rfl⟩
+  | i :: rest, hl => by
+    obtain ⟨a, ha⟩ := validateRound_ok h hr hh (hl i (by simp))
+    obtain ⟨b, hb⟩ := validateRounds_ok h hr hh rest (fun x hx => hl x (by simp [hx]))
+    exact ⟨a + b, by simp [validateRounds, ha, hb]⟩
+
+theorem validateChain_ok {kv : KV} (h : Consistent kv) (hr : RInv kv) (depth c : Nat) :
+    ∃ tot, validateChain kv depth c = some (tot, 0) := by
+  unfold validateChain
+  cases hh : kv.rounds.lookup (.head c) with
+  | none => exact ⟨0, rfl⟩
+  | some hd =>
+    simp only
+    apply validateRounds_ok h hr hh
+    intro i hi
+    have := (List.mem_filter.mp hi).1
+    exact List.mem_range.mp this
+
+theorem validateChains_ok {kv : KV} (h : Consistent kv) (hr : RInv kv) (depth : Nat) : ∀ (l : List Nat),
+    ∃ tot, validateChains kv depth l = some (tot, 0)
+  | [] => ⟨0, rfl⟩
+  | c :: rest => by
+    obtain ⟨a, ha⟩ := validateChain_ok h hr depth c
+    obtain ⟨b, hb⟩ := validateChains_ok h hr depth rest
+    exact ⟨a + b, by simp [validateChains, ha, hb]⟩
+
+/-- on a consistent store whose ROUND records are in order, `ValidateGraphEntries` reports no
+    invalid entry, at every depth -/
+theorem validate_ok {kv : KV} (h : Consistent kv) (hr : RInv kv) (depth : Nat) :
+    ∃ total, validateGraph kv depth = some (total, 0) :=
+  validateChains_ok h hr depth _
+
+theorem chainsLoad_ok {kv : KV} (hr : RInv kv) : chainsLoad kv = true := by
+  unfold chainsLoad
+  simp only [List.all_eq_true]
+  intro c _
+  cases hh : kv.rounds.lookup (.head c) with
+  | none => rfl
+  | some hd =>
+    obtain ⟨_, h1⟩ := hr.head c hd hh
+    obtain ⟨hne, _⟩ := hr.below c hd hh (hd.number - 1) (by omega)
+    have : (roundSnaps kv c (hd.number - 1)).isEmpty = false := by
+      cases hx : roundSnaps kv c (hd.number - 1) with
+      | nil => exact absurd hx hne
+      | cons _ _ => rfl
+    have h0 : (hd.number != 0) = true := by simp; omega
+    simp [this, h0]
+
+
+/-! ### the ROUND invariant is preserved -/
+
+theorem roundSnaps_congr {kv kv' : KV} (hs : kv'.snaps = kv.snaps) (c i : Nat) : roundSnaps kv' c i = roundSnaps kv c i := by
+  simp only [roundSnaps, hs]
+
+theorem RInv_frame {kv kv' : KV} (hr : kv'.rounds = kv.rounds) (hs : kv'.snaps = kv.snaps) (h : RInv kv) : RInv kv' := by
+  refine ⟨?_, ?_⟩
+  · intro c hd hh; rw [hr] at hh; exact h.head c hd hh
+  · intro c hd hh i hi; rw [hr] at hh
+    rw [roundSnaps_congr hs, hr]; exact h.below c hd hh i hi
+
+theorem lockInputs_rounds {kv kv' : KV} {t : Tx} (h : lockInputs kv t = .ok kv') : kv'.rounds = kv.rounds ∧ kv'.snaps = kv.snaps := by
+  unfold lockInputs at h
+  split at h
+  · split at h
+    · injection h with h; subst h; exact ⟨rfl, rfl⟩
+    · split at h
+      · injection h with h; subst h; exact ⟨rfl, rfl⟩
+      · cases h
+  · split at h
+    · split at h
+      · injection h with h; subst h; exact ⟨rfl, rfl⟩
+      · split at h
+        · injection h with h; subst h; exact ⟨rfl, rfl⟩
+        · cases h
+    · split at h
+      · cases h
+      · injection h with h; subst h; exact ⟨rfl, rfl⟩
+
+theorem writeTx_rounds {kv kv' : KV} {t : Tx} (h : writeTx kv t = .ok kv') : kv'.rounds = kv.rounds ∧ kv'.snaps = kv.snaps := by
+  unfold writeTx at h
+  split at h
+  · cases h
+  · split at h
+    · injection h with h; subst h; exact ⟨rfl, rfl⟩
+    · injection h with h; subst h; exact ⟨rfl, rfl⟩
+
+/-- the round-transition discipline: the new final round is the set of snapshots stored in the
+    head round (the kernel hashes its cache round, `CacheRound.asFinal`, which is nil when empty) -/
+structure RoundProto (kv : KV) (c n : Nat) (sf : RKey) : Prop where
+  key : sf = .final c (n - 1) ((roundSnaps kv c (n - 1)).map (·.id))
+  nonempty : roundSnaps kv c (n - 1) ≠ []
+
+theorem RInv_round {kv kv' : KV} {c n : Nat} {self ext : RKey} (hstep : startNewRound kv c n self ext = .ok kv')
+    (hp : RoundProto kv c n self) (h : RInv kv) : RInv kv' := by
+  unfold startNewRound at hstep
+  split at hstep
+  · cases hstep
+  · cases hstep
+  · rename_i hd e hh he
+    split at hstep
+    · cases hstep
+    rename_i hn
+    split at hstep
+    · cases hstep
+    split at hstep
+    · cases hstep
+    split at hstep
+    · cases hstep
+    injection hstep with hstep
+    have hnum : hd.number + 1 = n := by simpa using hn
+    have hrounds : kv'.rounds = (.head c, { node := c, number := n, self := some self, ext := some ext }) :: (self, hd) :: kv.rounds := by
+      subst hstep; rfl
+    have hsnaps : kv'.snaps = kv.snaps := by subst hstep; rfl
+    have hself : self = .final c hd.number ((roundSnaps kv c hd.number).map (·.id)) := by
+      have := hp.key; rw [← hnum] at this; simpa using this
+    obtain ⟨hdn, _⟩ := h.head c hd hh
+    have look_head : ∀ c', kv'.rounds.lookup (.head c') =
+        if c' = c then some { node := c, number := n, self := some self, ext := some ext } else kv.rounds.lookup (.head c') := by
+      intro c'
+      rw [hrounds, List.lookup_cons]
+      by_cases hc : c' = c
+      · subst hc; simp
+      · have h1 : (RKey.head c' == RKey.head c) = false := by simp [hc]
+        simp only [h1, hc, ↓reduceIte]
+        rw [List.lookup_cons]
+        have h2 : (RKey.head c' == self) = false := by rw [hself]; simp
+        simp only [h2]
+    have look_final : ∀ c' i l, (c' ≠ c ∨ i ≠ hd.number) →
+        kv'.rounds.lookup (.final c' i l) = kv.rounds.lookup (.final c' i l) := by
+      intro c' i l hne
+      rw [hrounds, List.lookup_cons]
+      have h1 : (RKey.final c' i l == RKey.head c) = false := by simp
+      simp only [h1]
+      rw [List.lookup_cons]
+      have h2 : (RKey.final c' i l == self) = false := by
+        rw [hself]; simp
+        intro a b; rcases hne with h | h
+        · exact absurd a h
+        · exact absurd b h
+      simp only [h2]
+    refine ⟨?_, ?_⟩
+    · intro c' h' hl
+      rw [look_head] at hl
+      by_cases hc : c' = c
+      · simp only [hc, ↓reduceIte] at hl; injection hl with hl; subst hl; exact ⟨hc.symm, by simp; omega⟩
+      · simp only [hc, ↓reduceIte] at hl; exact h.head c' h' hl
+    · intro c' h' hl i hi
+      rw [look_head] at hl
+      rw [roundSnaps_congr hsnaps]
+      by_cases hc : c' = c
+      · simp only [hc, ↓reduceIte] at hl; injection hl with hl; subst hl
+        subst hc
+        simp only at hi
+        by_cases hlt : i < hd.number
+        · obtain ⟨a, r, b1, b2, b3⟩ := h.below c' hd hh i hlt
+          exact ⟨a, r, by rw [look_final _ _ _ (Or.inr (by omega))]; exact b1, b2, b3⟩
+        · have hie : i = hd.number := by omega
+          subst hie
+          refine ⟨by have := hp.nonempty; rw [← hnum] at this; simpa using this, hd, ?_, hdn, rfl⟩
+          rw [hrounds, List.lookup_cons]
+          have h1 : (RKey.final c' hd.number ((roundSnaps kv c' hd.number).map (·.id)) == RKey.head c') = false := by simp
+          simp only [h1]
+          rw [List.lookup_cons, ← hself]; simp
+      · simp only [hc, ↓reduceIte] at hl
+        obtain ⟨a, r, b1, b2, b3⟩ := h.below c' h' hl i hi
+        exact ⟨a, r, by rw [look_final _ _ _ (Or.inl hc)]; exact b1, b2, b3⟩
+
+
+theorem writeSnapshot_rounds {kv kv' : KV} {s : Snap} {o : Nat} (hstep : writeSnapshot kv s o = .ok kv') :
+    kv'.rounds = kv.rounds ∧ ∃ hd, kv.rounds.lookup (.head s.node) = some hd ∧ hd.number = s.round := by
+  unfold writeSnapshot at hstep
+  split at hstep
+  · cases hstep
+  · rename_i hd hh
+    split at hstep
+    · cases hstep
+    rename_i hn
+    split at hstep
+    · cases hstep
+    split at hstep
+    · cases hstep
+    split at hstep
+    · cases hstep
+    split at hstep
+    · cases hstep
+    rename_i kv1 hk
+    injection hstep with hstep; subst hstep
+    exact ⟨(finalizeAll_frame _ _ _ _ hk).2.2.2.2.2.1, hd, hh, by simpa using hn⟩
+
+theorem sortByTs_congr_filter (l : List Snap) (s : Snap) (p : Snap → Bool) (hp : p s = false) :
+    sortByTs ((l ++ [s]).filter p) = sortByTs (l.filter p) := by
+  rw [List.filter_append]; simp [hp]
+
+theorem RInv_snap {kv kv' : KV} {s : Snap} {o : Nat} (hstep : writeSnapshot kv s o = .ok kv')
+    (hnext : ∀ e ∈ kv.topo, e.1 < o) (h : RInv kv) : RInv kv' := by
+  obtain ⟨hr, hd, hh, hnum⟩ := writeSnapshot_rounds hstep
+  obtain ⟨_, _, _, hsnaps, _, _, _⟩ := writeSnapshot_facts hstep hnext
+  have hrs : ∀ c hd', kv.rounds.lookup (.head c) = some hd' → ∀ i, i < hd'.number →
+      roundSnaps kv' c i = roundSnaps kv c i := by
+    intro c hd' hh' i hi
+    unfold roundSnaps
+    rw [hsnaps]
+    apply sortByTs_congr_filter
+    by_cases hc : s.node = c
+    · subst hc
+      rw [hh] at hh'; injection hh' with hh'; subst hh'
+      have : s.round ≠ i := by omega
+      simp [this]
+    · simp [hc]
+  refine ⟨?_, ?_⟩
+  · intro c hd' hl; rw [hr] at hl; exact h.head c hd' hl
+  · intro c hd' hl i hi; rw [hr] at hl
+    rw [hrs c hd' hl i hi, hr]; exact h.below c hd' hl i hi
+
+/-! ### genesis -/
+
+theorem filter_range_eq (n c : Nat) : (List.range n).filter (fun x => x == c) = if c < n then [c] else [] := by
+  induction n with
+  | zero => simp
+  | succ k ih =>
+    rw [List.range_succ, List.filter_append, ih]
+    by_cases h1 : c < k
+    · have : (k == c) = false := by simp; omega
+      simp [h1, this]; omega
+    · by_cases h2 : c = k
+      · subst h2; simp
+      · have : (k == c) = false := by simp; omega
+        simp [h1, this]; omega
+
+theorem genesis_roundSnaps (n c : Nat) (hc : c < n) :
+    (roundSnaps (genesis n) c 0).map (·.id) = genesisSnapIds n c ∧ roundSnaps (genesis n) c 0 ≠ [] := by
+  have hf : ((List.range n).map (fun c' : Nat => ({ id := c' + 1, node := c', round := 0, ts := 0, txs := [c' + 1] } : Snap))).filter
+      (fun s => s.node == c && s.round == 0) = [{ id := c + 1, node := c, round := 0, ts := 0, txs := [c + 1] }] := by
+    rw [List.filter_map]
+    have : ((fun s : Snap => s.node == c && s.round == 0) ∘
+        (fun c' : Nat => ({ id := c' + 1, node := c', round := 0, ts := 0, txs := [c' + 1] } : Snap))) = (fun x => x == c) := by
+      funext x; simp
+    rw [this, filter_range_eq, if_pos hc]; rfl
+  unfold roundSnaps
+  simp only [genesis, List.filter_append, hf]
+  by_cases h0 : c = 0
+  · subst h0
+    simp [sortByTs, insertByTs, genesisSnapIds]
+  · have : ((0 : Nat) == c) = false := by simp; omega
+    simp [sortByTs, insertByTs, genesisSnapIds, this, h0]
+
+theorem genesis_rounds_mem (n : Nat) {k : RKey} {r : Round} (h : (k, r) ∈ (genesis n).rounds) :
+    ∃ c, c < n ∧ ((k = .head c ∧ r.node = c ∧ r.number = 1) ∨
+      (k = .final c 0 (genesisSnapIds n c) ∧ r.node = c ∧ r.number = 0)) := by
+  simp only [genesis, List.mem_flatMap, List.mem_range, List.mem_cons, List.mem_nil_iff, or_false] at h
+  obtain ⟨c, hc, h1 | h1⟩ := h
+  · injection h1 with a b; subst a; subst b; exact ⟨c, hc, Or.inl ⟨rfl, rfl, rfl⟩⟩
+  · injection h1 with a b; subst a; subst b; exact ⟨c, hc, Or.inr ⟨rfl, rfl, rfl⟩⟩
+
+theorem genesis_rinv (n : Nat) : RInv (genesis n) := by
+  refine ⟨?_, ?_⟩
+  · intro c hd hl
+    have hm : (RKey.head c, hd) ∈ (genesis n).rounds := by
+      obtain ⟨l1, l2, h1, _⟩ := List.lookup_eq_some_iff.mp hl
+      rw [h1]; simp
+    obtain ⟨c', _, h1 | h1⟩ := genesis_rounds_mem n hm
+    · obtain ⟨a, b, d⟩ := h1; injection a with a; subst a; exact ⟨b, by omega⟩
+    · obtain ⟨a, _⟩ := h1; cases a
+  · intro c hd hl i hi
+    have hm : (RKey.head c, hd) ∈ (genesis n).rounds := by
+      obtain ⟨l1, l2, h1, _⟩ := List.lookup_eq_some_iff.mp hl
+      rw [h1]; simp
+    obtain ⟨c', hc', h1 | h1⟩ := genesis_rounds_mem n hm
+    · obtain ⟨a, _, d⟩ := h1; injection a with a; subst a
+      have hi0 : i = 0 := by omega
+      subst hi0
+      obtain ⟨g1, g2⟩ := genesis_roundSnaps n c hc'
+      refine ⟨g2, { node := c, number := 0, self := none, ext := none }, ?_, rfl, rfl⟩
+      rw [g1]
+      apply lookup_unique
+      · simp only [genesis, List.mem_flatMap, List.mem_range, List.mem_cons, List.mem_nil_iff, or_false]
+        exact ⟨c, hc', Or.inr rfl⟩
+      · intro v hv
+        simp only [genesis, List.mem_flatMap, List.mem_range, List.mem_cons, List.mem_nil_iff, or_false] at hv
+        obtain ⟨c2, _, h2 | h2⟩ := hv
+        · injection h2 with a _; cases a
+        · injection h2 with a b
+          injection a with a1 _ _
+          subst a1; exact b
+    · obtain ⟨a, _⟩ := h1; cases a
+
+/-! ### every cut point, and the full restart -/
+
+/-- one durable write, with the finalization discipline of C21 and the round-transition
+    discipline `RoundProto` -/
+inductive LStep : KV → KV → Prop where
+  | lock {kv kv' : KV} {t : Tx} : lockInputs kv t = .ok kv' → LStep kv kv'
+  | wtx {kv kv' : KV} {t : Tx} : writeTx kv t = .ok kv' → LStep kv kv'
+  | round {kv kv' : KV} {c n : Nat} {self ext : RKey} : startNewRound kv c n self ext = .ok kv' →
+      RoundProto kv c n self → LStep kv kv'
+  | snap {kv kv' : KV} {s : Snap} {o : Nat} : writeSnapshot kv s o = .ok kv' → SnapProto kv s o → LStep kv kv'
+  | mark {kv kv' : KV} {sid : Nat} : markSnap kv sid = .ok kv' → LStep kv kv'
+  | restart {kv kv' : KV} : setupRepair kv = .ok kv' → LStep kv kv'
+
+inductive LReach : KV → Prop where
+  | genesis (n : Nat) : LReach (genesis n)
+  | step {kv kv' : KV} : LReach kv → LStep kv kv' → LReach kv'
+
+theorem LStep.toStep {kv kv' : KV} (h : LStep kv kv') : Step kv kv' := by
+  cases h with
+  | lock h1 => exact Step.lock h1
+  | wtx h1 => exact Step.wtx h1
+  | round h1 _ => exact Step.round h1
+  | snap h1 hp => exact Step.snap h1 hp
+  | mark h1 => exact Step.mark h1
+  | restart h1 => exact Step.restart h1
+
+theorem LReach.toReach {kv : KV} (h : LReach kv) : Reach kv := by
+  induction h with
+  | genesis n => exact Reach.genesis n
+  | step _ hs ih => exact Reach.step ih hs.toStep
+
+theorem advance_rounds (kv : KV) (sn : Snap) (tx : Tx) :
+    (advance kv sn tx).rounds = kv.rounds ∧ (advance kv sn tx).snaps = kv.snaps := ⟨rfl, rfl⟩
+
+theorem lstep_rinv {kv kv' : KV} (hs : LStep kv kv') (hc : Consistent kv) (h : RInv kv) : RInv kv' := by
+  cases hs with
+  | lock h1 => obtain ⟨a, b⟩ := lockInputs_rounds h1; exact RInv_frame a b h
+  | wtx h1 => obtain ⟨a, b⟩ := writeTx_rounds h1; exact RInv_frame a b h
+  | round h1 hp => exact RInv_round h1 hp h
+  | snap h1 hp => exact RInv_snap h1 hp.next h
+  | mark h1 =>
+    rcases markSnap_cases h1 with b | ⟨sn, tx, b⟩
+    · rw [b]; exact h
+    · rw [b]; exact RInv_frame (kv := kv) rfl rfl h
+  | restart h1 =>
+    obtain ⟨kv2, a, _, b, _⟩ := setupRepair_spec hc.index
+    rw [a] at h1; injection h1 with h1; subst h1
+    rcases b with b | ⟨_, _, sn, tx, _, b, _⟩
+    · rw [b]; exact h
+    · rw [b]; exact RInv_frame (kv := kv) rfl rfl h
+
+theorem lreach_rinv {kv : KV} (hr : LReach kv) : RInv kv := by
+  induction hr with
+  | genesis n => exact genesis_rinv n
+  | step hr' hs ih => exact lstep_rinv hs (every_prefix_consistent hr'.toReach) ih
+
+/-- **restart_ok, full strength**: on a consistent durable state whose ROUND records are in
+    order, every modelled step of `kernel.SetupNode` succeeds: `LastSnapshot` finds the last
+    entry, `ValidateGraphEntries(…, 10)` reports no invalid entry, the marker repair succeeds,
+    every chain loads its final round; the restarted state is consistent again and the topology
+    counter is the last order. -/
+theorem restart_ok {kv : KV} (h : Consistent kv) (hr : RInv kv) :
+    ∃ r, restart kv = some r ∧ Consistent r.kv ∧ RInv r.kv ∧
+      validateGraph kv 10 = some (r.total, 0) ∧ kv.topo.getLast?.map (·.1) = some r.topoCounter := by
+  obtain ⟨hl, kv1, h1, hc1⟩ := restart_ok_partial h
+  obtain ⟨total, hv⟩ := validate_ok h hr 10
+  have hr1 : RInv kv1 := lstep_rinv (LStep.restart h1) h hr
+  have hload := chainsLoad_ok hr1
+  obtain ⟨e, he⟩ : ∃ e, kv.topo.getLast? = some e := by
+    unfold lastSnapshotOk at hl
+    cases hg : kv.topo.getLast? with
+    | none => simp [hg] at hl
+    | some e => exact ⟨e, rfl⟩
+  refine ⟨{ kv := kv1, topoCounter := e.1, total := total }, ?_, hc1, hr1, hv, by simp [he]⟩
+  unfold restart
+  simp [hl, hv, h1, hload, he]
+
+/-- **every cut point restarts**: stop after any sequence of durable writes that follow the
+    finalization and round-transition disciplines (restarts included); the node restarts and its
+    graph validator reports no invalid entries. -/
+theorem restart_ok_every_prefix {kv : KV} (hr : LReach kv) :
+    ∃ r, restart kv = some r ∧ ∃ total, validateGraph kv 10 = some (total, 0) := by
+  obtain ⟨r, h1, _, _, h2, _⟩ := restart_ok (every_prefix_consistent hr.toReach) (lreach_rinv hr)
+  exact ⟨r, h1, r.total, h2⟩
+
+
+/-! ### non-vacuity: a reachable state with a round transition -/
+
+def wR : RKey := .final 2 1 [10]
+def wX : RKey := .final 3 0 [4]
+def w7 : KV := runOk (startNewRound w6 2 2 wR wX)
+
+theorem witness_round_reach : LReach w7 := by
+  have l6 : LReach w6 := by
+    have p3 : SnapProto w2 wS9 8 := by
+      refine ⟨by decide, ?_⟩
+      intro t tx h1 h2 _
+      have ht : t = 9 := by simp [wS9] at h1; exact h1.symm
+      subst ht
+      have : findTx w2 9 = some wMint := by decide
+      rw [this] at h2; injection h2 with h2; subst h2
+      exact ⟨{ ts := 1, snap := 8, next := 0 }, 7, 8, ⟨by decide, by decide, by decide⟩, by decide, rfl, by decide, by decide⟩
+    have p6 : SnapProto w5 wS10 9 := by
+      refine ⟨by decide, ?_⟩
+      intro t tx h1 h2 h3
+      have ht : t = 10 := by simp [wS10] at h1; exact h1.symm
+      subst ht
+      have : findTx w5 10 = some wDep := by decide
+      rw [this] at h2; injection h2 with h2; subst h2
+      simp [wDep, consensusKind] at h3
+    have r1 : LReach w1 := LReach.step (LReach.genesis 7) (LStep.lock (t := wMint) rfl)
+    have r2 : LReach w2 := LReach.step r1 (LStep.wtx (t := wMint) rfl)
+    have r3 : LReach w3 := LReach.step r2 (LStep.snap (s := wS9) (o := 8) rfl p3)
+    have r4 : LReach w4 := LReach.step r3 (LStep.lock (t := wDep) rfl)
+    have r5 : LReach w5 := LReach.step r4 (LStep.wtx (t := wDep) rfl)
+    exact LReach.step r5 (LStep.snap (s := wS10) (o := 9) rfl p6)
+  exact LReach.step l6 (LStep.round (c := 2) (n := 2) (self := wR) (ext := wX) rfl ⟨by decide, by decide⟩)
+
+/-- after the round transition of chain 2 the validator also visits round 1 (9 entries), and the
+    whole modelled restart succeeds -/
+example : (restart w7).map (fun r => (r.topoCounter, r.total)) = some (9, 9) := by decide
+
+/-- the excluded point of `RoundProto`: a final round recorded under the hash of the wrong
+    snapshot set is what the validator reports (MISSING ROUND) — the restart is refused -/
+example : (restart (runOk (startNewRound w6 2 2 (.final 2 1 []) wX))).isNone = true := by decide
 
 end Mixin.C22
